@@ -1082,8 +1082,6 @@ class HttpPayloadParser:
                         chunk = chunk[pos + len(SEP) :]
                         if size == 0:  # eof marker
                             self._chunk = ChunkState.PARSE_TRAILERS
-                            if self._lax and chunk.startswith(b"\r"):
-                                chunk = chunk[1:]
                         else:
                             self._chunk = ChunkState.PARSE_CHUNKED_CHUNK
                             self._chunk_size = size
@@ -1122,6 +1120,11 @@ class HttpPayloadParser:
                 # toss the CRLF at the end of the chunk
                 if self._chunk == ChunkState.PARSE_CHUNKED_CHUNK_EOF:
                     if self._lax and chunk.startswith(b"\r"):
+                        if len(chunk) == 1:
+                            # Wait for the LF: forgetting this CR would let a
+                            # second one through when the read ends here.
+                            self._chunk_tail = chunk
+                            return PayloadState.PAYLOAD_NEEDS_INPUT, b""
                         chunk = chunk[1:]
                     if chunk[: len(SEP)] == SEP:
                         chunk = chunk[len(SEP) :]
